@@ -69,14 +69,16 @@ Srrs(L) == SelectSeq(L.out, LAMBDA o : o.mt = MT_SRREQ)
 MyRsps(L) == SelectSeq(L.out, LAMBDA o : o.mt \in RespTypes /\ o.to = L.e.peer /\ o.seq = L.e.seq)
 
 \* ------------------------------------------------------------------ data-plane ghost from the observed calls
-\* res: "ok", "err" (no effect), "err+" (a create that reported an error after the rule had been installed)
+\* res: "ok", "err" (no effect), "err+" (a create that reported an error after the rule had been installed),
+\* "lax" (permissive data plane: a query for a URR it has removed was answered with a report; no effect on the table)
 DpStep(dp, c) == IF c.res \in {"ok", "err+"} /\ c.op = "create" THEN dp \cup {KeyOf(c)}
                  ELSE IF c.res = "ok" /\ c.op = "remove" THEN dp \ {KeyOf(c)} ELSE dp
 DpAfter(dp, calls) == FoldLeft(DpStep, dp, calls)
 \* the twin itself must behave like a table (else the run is void: infrastructure, not a verdict)
 TwinOk(dp, calls) ==
   FoldLeft(LAMBDA acc, c :
-            [ok |-> acc.ok /\ (c.res # "err" => IF c.op = "create" THEN KeyOf(c) \notin acc.dp ELSE KeyOf(c) \in acc.dp),
+            [ok |-> acc.ok /\ (IF c.res = "lax" THEN c.op = "query" /\ c.kind = "urr" /\ KeyOf(c) \notin acc.dp
+                             ELSE c.res # "err" => IF c.op = "create" THEN KeyOf(c) \notin acc.dp ELSE KeyOf(c) \in acc.dp),
              dp |-> DpStep(acc.dp, c)],
           [ok |-> TRUE, dp |-> dp], calls).ok
 
@@ -84,7 +86,7 @@ CreateOps(e)      == {o \in Rng(e.ops) : o.op = "create"}
 CreateKeys(e, sd) == {<<sd, o.kind, o.id>> : o \in CreateOps(e)}
 RemovedOk(calls)  == {KeyOf(c) : c \in {x \in Rng(calls) : x.op = "remove" /\ x.res = "ok"}}
 CreatedOk(calls)  == {KeyOf(c) : c \in {x \in Rng(calls) : x.op = "create" /\ x.res \in {"ok", "err+"}}}
-AnyFailed(calls)  == \E c \in Rng(calls) : c.res # "ok"
+AnyFailed(calls)  == \E c \in Rng(calls) : c.res \notin {"ok", "lax"}
 
 \* ------------------------------------------------------------------ which sessions does the event address / end?
 EstAccepted(g, e) == e.t = "est" /\ e.node \in AssocNodes(g) /\ e.cp # ""
@@ -122,7 +124,11 @@ Addressed(g, L) ==
 \* ------------------------------------------------------------------ usage-report bookkeeping
 UrrOf(urrs, sd, u) == {x \in urrs : x.seid = sd /\ x.id = u}
 RefsOf(refs, sd, u) == {r \in refs : r[1] = sd /\ r[3] = u}
-ProducedByCalls(calls) ==
+\* the reports the UPF has to account for: those of calls on rules the data plane holds. What a permissive data plane
+\* answers for a URR it has already removed ("lax") is a report for an unknown URR: it must NOT be forwarded (C10), and
+\* the URR's final usage has been returned already (C12: once)
+ProducedByCalls(calls0) ==
+  LET calls == SelectSeq(calls0, LAMBDA c : c.res # "lax") IN
   FlattenSeq([i \in DOMAIN calls |-> [j \in DOMAIN calls[i].reps |->
      [urr |-> calls[i].reps[j].urr, trig |-> calls[i].reps[j].trig, vals |-> calls[i].reps[j].vals]]])
 ProducedByEvent(e) ==
